@@ -7,13 +7,20 @@ import Mps.SrcPins.SrcFrostKeygen
 namespace Mps.Src.SrcFrostKeygen
 set_option maxRecDepth 65536
 
+theorem gen_f_config : MpsGen.SrcFrostKeygen.f_config = Mps.SrcPins.SrcFrostKeygen.f_config := by decide
+theorem gen_f_keygen : MpsGen.SrcFrostKeygen.f_keygen = Mps.SrcPins.SrcFrostKeygen.f_keygen := by decide
+theorem gen_f_round1 : MpsGen.SrcFrostKeygen.f_round1 = Mps.SrcPins.SrcFrostKeygen.f_round1 := by decide
+theorem gen_f_round2 : MpsGen.SrcFrostKeygen.f_round2 = Mps.SrcPins.SrcFrostKeygen.f_round2 := by decide
+theorem gen_f_round3 : MpsGen.SrcFrostKeygen.f_round3 = Mps.SrcPins.SrcFrostKeygen.f_round3 := by decide
+theorem gen_files : MpsGen.SrcFrostKeygen.files = Mps.SrcPins.SrcFrostKeygen.files := by decide
+
 theorem gen_source :
     MpsGen.SrcFrostKeygen.f_config = Mps.SrcPins.SrcFrostKeygen.f_config ∧
     MpsGen.SrcFrostKeygen.f_keygen = Mps.SrcPins.SrcFrostKeygen.f_keygen ∧
     MpsGen.SrcFrostKeygen.f_round1 = Mps.SrcPins.SrcFrostKeygen.f_round1 ∧
     MpsGen.SrcFrostKeygen.f_round2 = Mps.SrcPins.SrcFrostKeygen.f_round2 ∧
     MpsGen.SrcFrostKeygen.f_round3 = Mps.SrcPins.SrcFrostKeygen.f_round3 ∧
-    MpsGen.SrcFrostKeygen.files = Mps.SrcPins.SrcFrostKeygen.files := by
-  refine ⟨by decide, by decide, by decide, by decide, by decide, by decide⟩
+    MpsGen.SrcFrostKeygen.files = Mps.SrcPins.SrcFrostKeygen.files :=
+  ⟨gen_f_config, gen_f_keygen, gen_f_round1, gen_f_round2, gen_f_round3, gen_files⟩
 
 end Mps.Src.SrcFrostKeygen
